@@ -11,10 +11,11 @@
 EXTENDS SimMech, SimObs, Json
 
 CONSTANTS MaxPackets, Delay, NC, NS, Budget, ActionAlphabetId, MaxEvents, Cont,
-          KeepHist      \* behaviour generation: carry the oracle's answers as a history variable
+          KeepHist,     \* behaviour generation: carry the oracle's answers as a history variable
+          TraceSetId    \* "all": every time-sorted trace; "client": packets sent by the client only
 
 Traces ==
-  {tr \in UNION {[1..k -> [t : {0, 1, 3}, s : BOOLEAN]] : k \in 1..MaxPackets} :
+  {tr \in UNION {[1..k -> [t : {0, 1, 3}, s : IF TraceSetId = "client" THEN {TRUE} ELSE BOOLEAN]] : k \in 1..MaxPackets} :
      \A i \in 1..(Len(tr) - 1) : tr[i].t <= tr[i + 1].t}
 
 Durs == {0, 1, 3}
@@ -75,6 +76,9 @@ Next ==
                ELSE hist
 
 Spec == Init /\ [][Next]_vars
+\* behaviour generation for deep configurations: states are compared without the history, so every
+\* distinct state of the model lies on a printed behaviour but not every path is printed
+StateView == <<Z, o>>
 
 ---------------------------------------------------------------------------
 \* properties: no clause of the property fails (with the historic variant "F6" - blocking of zero
